@@ -88,6 +88,12 @@ def escape_signature(exc):
     there the function does not identify the construct."""
     fn = where_raised(exc)
     sig = f"escape:{type(exc).__name__}:{fn}"
+    if fn == "generic_visit":  # the compiler's "node needs visitor" assertion: name the node
+        import re
+
+        m = re.search(r'node "(\w+)"', str(exc))
+        if m:
+            sig += ":" + m.group(1)
     if fn == "compileTranslatedTree":
         import re
 
